@@ -57,6 +57,40 @@ def run(ctx):
             compare(ctx, qs[i:i + 3000], stats, "random-depth%d" % depth)
         for k, v in g.stats.items():
             gstats[k] = gstats.get(k, 0) + v
+    # the property itself, on the implementation alone (also for words the engine model does not
+    # interpret, e.g. ?match): feeding E the stacks a, b, c one after the other yields what E yields
+    # for a, for b and for c - as a multiset (a `,` inside E may interleave what it yields for
+    # different inputs), and no input is lost
+    import collections
+    srng = ctx.sub_rng("stream")
+    INPUTS = ['"ab"', '"cd"', '"ax"', '"c"', "1", "2", "[1, 2]", '"foobar"', '"f("']
+    ES = ['(=~ ("a.", "c."))', '(!~ ("a.", "c."))', '(|S| S ("a.", "c.", "a.") ?match S)', '(|S| ("a.", "c.", "(") (|P| S P ?match P))',
+          '(|S| S ("^a", "x$") ?match)', '(|S| ("ab", S) "a" ?find)', '(|S| S S ?starts)', '(|S| (S, S "x" add, S) (=~ "x"))',
+          '(|S| [S ("a", "c") ?find] length)', '(|S| S ("a.", "c.") !match)', 'dup (=~ ("b", "d"))', '(|S| "abcd" (S, "b", S) ?match)']
+    g2 = zgen.G(ctx.sub_rng("streamgen"), max_depth=2)
+    ES += [g2.program() for _ in range(60 if quick else 1200)]
+    sq, smeta = [], []
+    for E in ES:
+        for _ in range(2 if quick else 4):
+            ins = [srng.choice(INPUTS) for _ in range(srng.randint(2, 4))]
+            sq.append("(%s) %s" % (", ".join(ins), E))
+            smeta.append((E, ins))
+    singles = sorted({(E, i) for E, ins in smeta for i in ins})
+    sres = zw.run_cases([zw.enc(q, t=3, max=engine.LIMIT) for q in sq] + [zw.enc("%s %s" % (i, E), t=3, max=engine.LIMIT) for E, i in singles])
+    single = {k: engine.canon_impl(r) for k, r in zip(singles, sres[len(sq):])}
+    nstream = 0
+    for (E, ins), q, r in zip(smeta, sq, sres):
+        whole = engine.canon_impl(r)
+        parts = [single[(E, i)] for i in ins]
+        if whole[0] != "DONE" or any(p[0] != "DONE" for p in parts):
+            continue                                   # an exception ends the whole run: nothing to decompose
+        nstream += 1
+        stats["evaluations"] += 1
+        want = collections.Counter(e for p in parts for e in p[1])
+        got = collections.Counter(whole[1])
+        if want != got and len(ctx.violations) < 6:
+            ctx.violation("`%s` yields %s, but for its inputs one at a time `%s` yields %s" % (q, " ".join(whole[1])[:200], E, " | ".join(" ".join(p[1]) for p in parts)[:300]),
+                          {"query": q, "kind": "stream-decomposition", "body": E, "inputs": ins})
     # the hypothesis of the theorems, evaluated on what the builder makes of every program:
     # the chain (and every block body) is in its constructed state (QuietM.quietb, reflected by quietb_quiet)
     allq = list(dict.fromkeys(ex + ALLQ))
@@ -71,10 +105,10 @@ def run(ctx):
             ctx.violation("the chain built for `%s` is not in its constructed state: the hypothesis of C01_engine_forgets does not hold for it" % q[:200], {"query": q, "kind": "not-quiet"})
     common.report_broken_obligations(ctx, oblig, bool(ctx.violations))
     ctx.cov.update({
-        "built_chains_quiet": qhist,
+        "built_chains_quiet": qhist, "stream_decompositions": nstream,
         "evaluations": stats["evaluations"],
         "distinct_nontrivial": len(stats["nontrivial"]),
-        "rule": "programs over the core constructs: every term up to a size bound over a 13-word alphabet with the constructors cat, `,`, `||`, [ ], ?( ), !( ), infix ==, let, E?, bounded E*, %( %) — each alone and behind a two-stack producer — plus random nested programs (depth 2-4, typed generation, 5% ill-typed) behind multi-yield producers; non-trivial = terminates with >= 2 results and contains a multi-stack construct; each program is parsed by the implementation, its tree is run by the extracted engine model, event streams compared in order",
+        "rule": "programs over the core constructs: every term up to a size bound over a 13-word alphabet with the constructors cat, `,`, `||`, [ ], ?( ), !( ), infix ==, let, E?, bounded E*, %( %) — each alone and behind a two-stack producer — plus random nested programs (depth 2-4, typed generation, 5% ill-typed) behind multi-yield producers; non-trivial = terminates with >= 2 results and contains a multi-stack construct; each program is parsed by the implementation, its tree is run by the extracted engine model, event streams compared in order; + on the implementation alone: (a, b, c) E against a E, b E, c E as multisets (pattern-taking words with varying patterns, random bodies)",
         "samples": samples[:5],
         "traces_validated_against_impl": stats["evaluations"],
         "impl_status_histogram": {k[7:]: v for k, v in stats.items() if k.startswith("status:")},
